@@ -278,9 +278,19 @@ theorem step_lead_only_while_leader (lw : LWorld) (e : LEvent)
       | deposed => simp [stepLeader, hd'] at h
       | hb p a => simp [stepLeader, hd'] at h
       | rpc ev => simp [stepLeader, hd'] at h
+      | heartbeatTimeout =>
+        simp only [stepLeader, hd', Bool.false_eq_true, if_false] at h
+        split at h <;> simp at h
+      | idle => simp [stepLeader, hd'] at h
     | some l =>
       cases e with
       | start =>
+        simp only [stepLeader, hd', Bool.false_eq_true, if_false] at h ⊢
+        exact hinv (by simp)
+      | heartbeatTimeout =>
+        simp only [stepLeader, hd', Bool.false_eq_true, if_false] at h ⊢
+        exact hinv (by simp)
+      | idle =>
         simp only [stepLeader, hd', Bool.false_eq_true, if_false] at h ⊢
         exact hinv (by simp)
       | calls cs f => simp only [stepLeader, hd', Bool.false_eq_true, if_false] at h ⊢; exact finish_lead _ _ _ h
@@ -676,9 +686,15 @@ theorem lead_one_uncommitted_config (lw : LWorld) (e : LEvent) (hne : ∀ ev, e 
       | deposed => simp [stepLeader, hd'] at hl
       | hb p a => simp [stepLeader, hd'] at hl
       | rpc ev => exact absurd rfl (hne ev)
+      | heartbeatTimeout =>
+        simp only [stepLeader, hd', Bool.false_eq_true, if_false] at hl
+        split at hl <;> simp at hl
+      | idle => simp [stepLeader, hd'] at hl
     | some l =>
       cases e with
       | start => simp only [stepLeader, hd', Bool.false_eq_true, if_false]; exact hinv
+      | heartbeatTimeout => simp only [stepLeader, hd', Bool.false_eq_true, if_false]; exact hinv
+      | idle => simp only [stepLeader, hd', Bool.false_eq_true, if_false]; exact hinv
       | calls cs f =>
         simp only [stepLeader, hd', Bool.false_eq_true, if_false] at hl ⊢
         exact fin _ _ (callStep_inv _ _ _ _ (hw _)) hl
@@ -710,5 +726,55 @@ example :
   refine ⟨⟨by decide, by decide, ?_⟩, by decide, by decide, by decide, by decide⟩
   intro e he _ hgt
   simp at he; subst he; simp at hgt
+
+end SV
+
+
+namespace SV
+
+/-! ## the follower loop -/
+
+/-- **C07 / C14.**  A server that is not a voter of its latest configuration (a non-voter, a staging
+    server, a server that has been removed, a server without any configuration) never leaves the
+    follower state by a heartbeat timeout, however often the timer fires. -/
+theorem nonvoter_never_campaigns (v : Vol) (hrole : v.role = .follower) (h : ¬ hasVote v.latest selfId = true) :
+    (followerTimeout v).role = .follower := by
+  unfold followerTimeout
+  simp only [h, Bool.false_eq_true, if_false]
+  split
+  · exact hrole
+  · split <;> exact hrole
+
+/-- a heartbeat timeout always forgets the leader (C18: a follower that has lost contact stops naming
+    one), changes nothing else but possibly the role, and writes nothing -/
+theorem followerTimeout_forgets_leader (v : Vol) :
+    (followerTimeout v).leader = 0 ∧ (followerTimeout v).leaderId = 0 ∧ (followerTimeout v).term = v.term ∧
+    (followerTimeout v).commit = v.commit ∧ (followerTimeout v).latest = v.latest := by
+  unfold followerTimeout
+  simp only []
+  split
+  · exact ⟨rfl, rfl, rfl, rfl, rfl⟩
+  · split
+    · exact ⟨rfl, rfl, rfl, rfl, rfl⟩
+    · split <;> exact ⟨rfl, rfl, rfl, rfl, rfl⟩
+
+/-- a voter that knows its configuration does start an election (C12: the timeout is not lost) -/
+theorem voter_campaigns (v : Vol) (hcfg : v.latestIdx ≠ 0) (h : hasVote v.latest selfId = true) :
+    (followerTimeout v).role = .candidate := by
+  unfold followerTimeout
+  simp only [hcfg, if_false]
+  split
+  · rename_i hh; exact absurd h hh.2
+  · simp [h]
+
+/-- **C17.**  A call that needs a leader, reaching a server whose leader loop is not running, is
+    answered ErrNotLeader at once and leaves no trace: no write, no state change, nothing queued. -/
+theorem refused_without_leader (lw : LWorld) (cs : List (Nat × Call)) (f : Option Nat) (hl : lw.lead = none) (hd : lw.w.dead = false) :
+    (stepLeader lw (.calls cs f)).1 = lw ∧ (stepLeader lw (.calls cs f)).2.obs.writes = [] ∧
+    (stepLeader lw (.calls cs f)).2.outcomes = cs.map (fun c => (c.1, Outcome.notLeader)) := by
+  obtain ⟨w, lead⟩ := lw
+  simp only at hl hd
+  subst hl
+  simp [stepLeader, hd, idleObs]
 
 end SV
